@@ -882,7 +882,42 @@ func (e *engine) afterWrite() *failure {
 			return f
 		}
 	}
+	if e.c.Stream {
+		// another goroutine is creating and deleting files: see quiescentFiles
+		return nil
+	}
 	return e.checkFiles()
+}
+
+// quiescentFiles lists the stream's files while the muxer goroutine may still
+// be at work. A directory listing is not a snapshot: one that overlaps the
+// roll-over "delete segment N-3, create segment N+1" can report both files
+// although they never existed together (seen on ext4 under load: [2 3 4 5 6]
+// with 4 segments complete). The listing is therefore repeated until two in a
+// row agree and hold the file of the open segment, i.e. until the roll-over the
+// schedule waited for is over; nothing else touches the directory before the
+// next key frame, which the schedule has not written yet. No agreement within
+// the bound: not judged.
+func (e *engine) quiescentFiles() ([]string, bool) {
+	var prev []string
+	for try := 0; try < 400; try++ {
+		cur := baseNames(e.myFiles())
+		open := false
+		for _, n := range cur {
+			if strings.HasSuffix(n, fmt.Sprintf("_%d.ts", e.lastSeq+1)) {
+				open = true
+			}
+		}
+		if (open || e.closed) && prev != nil && strings.Join(prev, " ") == strings.Join(cur, " ") {
+			return cur, true
+		}
+		prev = cur
+		runtime.Gosched()
+		if try > 20 {
+			time.Sleep(50 * time.Microsecond)
+		}
+	}
+	return prev, false
 }
 
 func (e *engine) checkFiles() *failure {
@@ -890,6 +925,14 @@ func (e *engine) checkFiles() *failure {
 		return nil
 	}
 	names := e.myFiles()
+	if e.c.Stream {
+		var ok bool
+		if names, ok = e.quiescentFiles(); !ok {
+			e.res.class("storage:not-judged(no-quiescent-listing)")
+			return nil
+		}
+		e.res.class("storage:judged-at-quiescent-point")
+	}
 	if len(names) > 3+1 {
 		return fail("storage-bound", "%d .ts files on disk for one stream after %d completed segments (window 3 + the open one): %v", len(names), e.lastSeq, baseNames(names))
 	}
@@ -1437,6 +1480,9 @@ func (e *engine) close() *failure {
 	}
 	if e.dir != "" {
 		names := e.myFiles()
+		if e.c.Stream {
+			names, _ = e.quiescentFiles() // the muxer goroutine may still be winding down
+		}
 		if len(names) > 3+1 {
 			return fail("storage-bound", "%d .ts files left after close", len(names))
 		}
@@ -1490,7 +1536,7 @@ func (e *engine) sync(seq int) *failure {
 		}
 		runtime.Gosched()
 	}
-	return nil
+	return e.checkFiles()
 }
 
 // ---------------------------------------------------------------- evidence + replay
